@@ -4,7 +4,7 @@
    Goroutines started on behalf of a subscription (machine.go, go-fsm v2.3.0 hooks/broadcast/manager.go):
    * the forwarder  `go func(){ defer close(wrappedCh); for s := range userCh { ... } }()`  started by
      finitestate.getStateChanInternal once the current state is in the wrapped channel (label LRead);
-     it ends by closing the wrapped channel (LFwdClose, and LFwdAbort in the repaired code):
+     it ends by closing the wrapped channel (LFwdClose) once the manager channel is closed and empty:
        alive  <->  sg = SLive /\ wclosed = false;
    * the manager's cleanup goroutine  `go func(){ <-ctx.Done(); m.unsubscribe(ch); close(ch) }()`  started
      at registration (LSub); it ends with the un-registration (LUnsub): alive <-> unsub = false;
@@ -14,13 +14,15 @@
 
    [quietb]: no internal label (LRead, LDeliver, LDrop, LFwdTake, LFwdPut, LFwdClose, LFwdAbort, LUnsub)
    of any subscriber is enabled - whatever the consumers do or do not do (LRecv / LRecvClosed are the
-   consumer's, not internal).  [stableb] is the same without LDrop (the 5 s timer may be pending): the
-   states in which every goroutine is blocked, where the harness takes its goroutine dumps.
+   consumer's, not internal).  [stableb] is the same without the two timed labels LDrop (5 s broadcast
+   timeout) and LFwdAbort (100 ms grace of the repaired forwarder after the cancel): the states in
+   which every goroutine is blocked, possibly on a timer, where the harness takes its goroutine dumps.
 
    The wrapper LTS [gstep] adds, for the correspondence check only: the split of a machine call into
    issue ([GL (LOp o ok)], logged before the call) and return ([GRet ok], possible once the broadcast is
-   over) and the census observation [GSnap f c b] (accepted only in a stable state with the model's own
-   numbers). *)
+   over) and the census observations [GSnap f c b] (accepted only in a stable state with the model's own
+   numbers) and [GQuiet f c b] (the same for a dump taken after every timer had the time to fire, no
+   machine call being in flight: accepted only in a quiescent state). *)
 From Coq Require Import List NArith Bool.
 From GS Require Import LTS Fsm FsmTable.
 Import ListNotations.
@@ -42,7 +44,7 @@ Definition open_subs (s : state) : nat := countb open_sub (subs s).
 Definition internal_labels (i : nat) : list label :=
   [LRead i; LDeliver i; LDrop i; LFwdTake i; LFwdPut i; LFwdClose i; LFwdAbort i; LUnsub i].
 Definition untimed_labels (i : nat) : list label :=
-  [LRead i; LDeliver i; LFwdTake i; LFwdPut i; LFwdClose i; LFwdAbort i; LUnsub i].
+  [LRead i; LDeliver i; LFwdTake i; LFwdPut i; LFwdClose i; LUnsub i].
 
 Definition enabledb (fx : bool) (c : tcfg) (s : state) (l : label) : bool :=
   match stepx fx c s l with Some _ => true | None => false end.
@@ -67,7 +69,8 @@ Record gstate := mkG { gm : state; gcall : option bool }.
 Inductive glabel :=
 | GL (l : label)
 | GRet (ok : bool)
-| GSnap (f c b : nat).
+| GSnap (f c b : nat)
+| GQuiet (f c b : nat).
 
 Inductive gevent :=
 | GEOp (o : op)            (* the director issues a machine call (logged before the call) *)
@@ -77,7 +80,8 @@ Inductive gevent :=
 | GECancel (i : nat)
 | GERecv (i : nat) (v : st)
 | GERecvClosed (i : nat)
-| GESnap (f c b : nat).    (* goroutine dump at a quiescent instant: forwarders, cleanups, senders *)
+| GESnap (f c b : nat)     (* goroutine dump with every goroutine blocked: forwarders, cleanups, senders *)
+| GEQuiet (f c b : nat).   (* ... taken after a pause longer than every timer that can be pending *)
 
 Definition ginit : gstate := mkG init None.
 
@@ -102,6 +106,10 @@ Definition gstep (fx : bool) (c : tcfg) (g : gstate) (l : glabel) : option gstat
        && negb (match gcall g with Some _ => is_nil (pend (gm g)) | None => false end)
        && Nat.eqb f (forwarders (gm g)) && Nat.eqb cl (cleaners (gm g)) && Nat.eqb b (senders (gm g))
     then Some g else None
+  | GQuiet f cl b =>
+    if quietb fx c (gm g) && match gcall g with None => true | Some _ => false end
+       && Nat.eqb f (forwarders (gm g)) && Nat.eqb cl (cleaners (gm g)) && Nat.eqb b (senders (gm g))
+    then Some g else None
   end.
 
 Fixpoint erase (ls : list glabel) : list label :=
@@ -122,6 +130,7 @@ Definition gobs (l : glabel) : option gevent :=
   | GL _ => None
   | GRet ok => Some (GERet ok)
   | GSnap f c b => Some (GESnap f c b)
+  | GQuiet f c b => Some (GEQuiet f c b)
   end.
 
 Definition gtaus (g : gstate) : list glabel :=
@@ -138,6 +147,7 @@ Definition gvis (_ : gstate) (e : gevent) : list glabel :=
   | GERecv i v => [GL (LRecv i v)]
   | GERecvClosed i => [GL (LRecvClosed i)]
   | GESnap f c b => [GSnap f c b]
+  | GEQuiet f c b => [GQuiet f c b]
   end.
 
 Definition op_eqb (a b : op) : bool :=
@@ -155,7 +165,8 @@ Definition gevent_eqb (a b : gevent) : bool :=
   | GESub, GESub => true
   | GERead i, GERead j | GECancel i, GECancel j | GERecvClosed i, GERecvClosed j => Nat.eqb i j
   | GERecv i v, GERecv j w => Nat.eqb i j && st_eqb v w
-  | GESnap f c b, GESnap f' c' b' => Nat.eqb f f' && Nat.eqb c c' && Nat.eqb b b'
+  | GESnap f c b, GESnap f' c' b' | GEQuiet f c b, GEQuiet f' c' b' =>
+    Nat.eqb f f' && Nat.eqb c c' && Nat.eqb b b'
   | _, _ => false
   end.
 
